@@ -4,7 +4,7 @@ from __future__ import annotations
 from .. import expr as E
 from .. import model as M
 from ..core import Report
-from .common import TRUSTED_WIRE, cfg_class, require_no_errors, wire_results
+from .common import require_fresh_lookups, TRUSTED_WIRE, cfg_class, require_no_errors, wire_results
 
 META = {
     "level": "proof",
@@ -62,6 +62,8 @@ def run(rep: Report) -> None:
         else:
             rep.holds("support-within-neighbourhood", lab, "Network.step")
     rep.analysed["(output, position) supports computed"] = n
+    require_fresh_lookups(rep)
+
     rep.floor("supports computed", n, 5000)
 
 
